@@ -59,6 +59,16 @@ pub fn start_log() {
     LOG_ON.store(true, Ordering::SeqCst);
 }
 
+/// Number of events logged so far (lets a watchdog see whether the run still makes progress).
+pub fn log_len() -> usize {
+    LOG.lock().unwrap().len()
+}
+
+/// Copy of the log without stopping it.
+pub fn snapshot_log() -> Vec<Event> {
+    LOG.lock().unwrap().clone()
+}
+
 pub fn take_log() -> Vec<Event> {
     LOG_ON.store(false, Ordering::SeqCst);
     std::mem::take(&mut *LOG.lock().unwrap())
